@@ -5,6 +5,7 @@
 //! compile to nothing.
 
 use std::cell::{Cell, RefCell};
+use std::fmt::Write as _;
 
 /// Called by the interpreter before each instruction is executed, with the index of the
 /// instruction about to run, the register file, the current call depth and the address of the
@@ -23,6 +24,7 @@ pub fn set_step_hook(hook: Option<StepHook>) {
 }
 
 pub(crate) fn step(insn_ptr: usize, reg: &[u64; 11], depth: usize, stack: *const u8) -> bool {
+    rec_step(insn_ptr, reg, depth, stack);
     STEP.with(|s| match s.borrow_mut().as_mut() {
         Some(f) => f(insn_ptr, reg, depth, stack),
         None => true,
@@ -37,4 +39,219 @@ pub fn last_jit_sizes() -> (usize, usize, usize) {
 
 pub(crate) fn record_jit_sizes(counted: usize, emitted: usize, buffer: usize) {
     JIT_SIZES.with(|c| c.set((counted, emitted, buffer)));
+}
+
+// ---------------------------------------------------------------------------------------------
+// Execution recorder: with the environment variable RBPF_VERIF_TRACE_DIR set, every interpreter
+// execution made through a VM object (by anything: the crate's own tests, examples, ...) is
+// written to that directory as one ndjson file: a `begin` line (program, buffers, helper ids,
+// frame sizes), one `step` line per instruction (registers before it), one `helper` line per
+// helper call (id, arguments, returned value, whether it changed memory), and an `end` line
+// (result, buffers and stack as they are afterwards).
+// ---------------------------------------------------------------------------------------------
+
+const REC_MAX_STEPS: usize = 20_000;
+
+struct Rec {
+    out: String,
+    prog: Vec<u8>,
+    mem: (*const u8, usize),
+    mbuff: (*const u8, usize),
+    stack: *const u8,
+    last_stack: Vec<u8>,
+    steps: usize,
+    pre_hash: u64,
+}
+
+thread_local! {
+    static REC: RefCell<Option<Rec>> = const { RefCell::new(None) };
+    static REC_SEQ: Cell<u64> = const { Cell::new(0) };
+}
+
+fn rec_dir() -> Option<std::path::PathBuf> {
+    std::env::var_os("RBPF_VERIF_TRACE_DIR").map(std::path::PathBuf::from)
+}
+
+fn push_bytes(out: &mut String, b: &[u8]) {
+    out.push('[');
+    for (i, x) in b.iter().enumerate() {
+        if i > 0 {
+            out.push(',');
+        }
+        let _ = write!(out, "{x}");
+    }
+    out.push(']');
+}
+
+fn push_word(out: &mut String, w: u64) {
+    push_bytes(out, &w.to_le_bytes());
+}
+
+unsafe fn raw<'a>(p: (*const u8, usize)) -> &'a [u8] {
+    if p.1 == 0 {
+        &[]
+    } else {
+        unsafe { std::slice::from_raw_parts(p.0, p.1) }
+    }
+}
+
+fn fnv(h: &mut u64, b: &[u8]) {
+    for x in b {
+        *h = (*h ^ *x as u64).wrapping_mul(0x100000001b3);
+    }
+}
+
+impl Rec {
+    fn mem_hash(&self) -> u64 {
+        let mut h = 0xcbf29ce484222325u64;
+        unsafe {
+            fnv(&mut h, raw(self.mem));
+            fnv(&mut h, raw(self.mbuff));
+            if !self.stack.is_null() {
+                fnv(&mut h, std::slice::from_raw_parts(self.stack, 512));
+            }
+        }
+        h
+    }
+}
+
+/// Called by `EbpfVmMbuff::execute_program` before the interpreter runs.
+pub(crate) fn exec_begin(
+    prog: Option<&[u8]>,
+    mem: &[u8],
+    mbuff: &[u8],
+    helper_ids: &mut dyn Iterator<Item = u32>,
+    allowed: &mut dyn Iterator<Item = (u64, u64)>,
+    frame_sizes: &mut dyn Iterator<Item = (usize, u16)>,
+    has_calculator: bool,
+) {
+    if rec_dir().is_none() {
+        return;
+    }
+    let prog = match prog {
+        Some(p) => p,
+        None => return,
+    };
+    let mut out = String::new();
+    out.push_str("{\"e\":\"begin\",\"prog\":");
+    push_bytes(&mut out, prog);
+    out.push_str(",\"mem_base\":");
+    push_word(&mut out, mem.as_ptr() as u64);
+    out.push_str(",\"mem\":");
+    push_bytes(&mut out, mem);
+    out.push_str(",\"mbuff_base\":");
+    push_word(&mut out, mbuff.as_ptr() as u64);
+    out.push_str(",\"mbuff\":");
+    push_bytes(&mut out, mbuff);
+    out.push_str(",\"helpers\":[");
+    for (i, id) in helper_ids.enumerate() {
+        let _ = write!(out, "{}{}", if i > 0 { "," } else { "" }, id as i32);
+    }
+    out.push_str("],\"allowed\":[");
+    for (i, (a, b)) in allowed.enumerate() {
+        let _ = write!(out, "{}[{a},{b}]", if i > 0 { "," } else { "" });
+    }
+    out.push_str("],\"frames\":[");
+    for (i, (pc, sz)) in frame_sizes.enumerate() {
+        let _ = write!(out, "{}[{pc},{sz}]", if i > 0 { "," } else { "" });
+    }
+    let _ = writeln!(out, "],\"calc\":{has_calculator}}}");
+    REC.with(|r| {
+        *r.borrow_mut() = Some(Rec {
+            out,
+            prog: prog.to_vec(),
+            mem: (mem.as_ptr(), mem.len()),
+            mbuff: (mbuff.as_ptr(), mbuff.len()),
+            stack: std::ptr::null(),
+            last_stack: Vec::new(),
+            steps: 0,
+            pre_hash: 0,
+        })
+    });
+}
+
+fn rec_step(insn_ptr: usize, reg: &[u64; 11], depth: usize, stack: *const u8) {
+    REC.with(|r| {
+        if let Some(rec) = r.borrow_mut().as_mut() {
+            rec.stack = stack;
+            // the stack as it is before this instruction: the last executed instruction of a run
+            // (exit, or one that fails) changes no memory, and the stack is gone afterwards
+            rec.last_stack.clear();
+            rec.last_stack.extend_from_slice(unsafe { std::slice::from_raw_parts(stack, 512) });
+            rec.steps += 1;
+            if rec.steps > REC_MAX_STEPS {
+                return;
+            }
+            let _ = write!(rec.out, "{{\"e\":\"step\",\"pc\":{insn_ptr},\"depth\":{depth},\"regs\":[");
+            for (i, x) in reg.iter().enumerate() {
+                if i > 0 {
+                    rec.out.push(',');
+                }
+                push_word(&mut rec.out, *x);
+            }
+            rec.out.push_str("]}\n");
+            // a helper call is about to run: remember what memory looks like before it
+            let o = insn_ptr * 8;
+            if o + 8 <= rec.prog.len() && rec.prog[o] == 0x85 && rec.prog[o + 1] >> 4 == 0 {
+                rec.pre_hash = rec.mem_hash();
+            }
+        }
+    });
+}
+
+/// Called by the interpreter after a helper returned.
+pub(crate) fn helper_called(id: u32, args: [u64; 5], ret: u64) {
+    REC.with(|r| {
+        if let Some(rec) = r.borrow_mut().as_mut() {
+            if rec.steps > REC_MAX_STEPS {
+                return;
+            }
+            let changed = rec.mem_hash() != rec.pre_hash;
+            let _ = write!(rec.out, "{{\"e\":\"helper\",\"id\":{},\"args\":[", id as i32);
+            for (i, a) in args.iter().enumerate() {
+                if i > 0 {
+                    rec.out.push(',');
+                }
+                push_word(&mut rec.out, *a);
+            }
+            rec.out.push_str("],\"ret\":");
+            push_word(&mut rec.out, ret);
+            let _ = writeln!(rec.out, ",\"memchg\":{changed}}}");
+        }
+    });
+}
+
+/// Called by `EbpfVmMbuff::execute_program` with the interpreter's result.
+pub(crate) fn exec_end(result: &Result<u64, std::io::Error>) {
+    let rec = REC.with(|r| r.borrow_mut().take());
+    let (mut rec, dir) = match (rec, rec_dir()) {
+        (Some(r), Some(d)) => (r, d),
+        _ => return,
+    };
+    match result {
+        Ok(v) => {
+            rec.out.push_str("{\"e\":\"end\",\"k\":\"ok\",\"val\":");
+            push_word(&mut rec.out, *v);
+            rec.out.push_str(",\"msg\":\"\"");
+        }
+        Err(e) => {
+            let msg: String = e.to_string().chars().map(|c| if c == '"' || c == '\\' || c.is_control() { ' ' } else { c }).collect();
+            let _ = write!(rec.out, "{{\"e\":\"end\",\"k\":\"err\",\"val\":[0,0,0,0,0,0,0,0],\"msg\":\"{msg}\"");
+        }
+    }
+    rec.out.push_str(",\"mem\":");
+    push_bytes(&mut rec.out, unsafe { raw(rec.mem) });
+    rec.out.push_str(",\"mbuff\":");
+    push_bytes(&mut rec.out, unsafe { raw(rec.mbuff) });
+    rec.out.push_str(",\"stack\":");
+    push_bytes(&mut rec.out, &rec.last_stack);
+    let _ = writeln!(rec.out, ",\"steps\":{},\"truncated\":{}}}", rec.steps, rec.steps > REC_MAX_STEPS);
+    let seq = REC_SEQ.with(|c| {
+        c.set(c.get() + 1);
+        c.get()
+    });
+    let name = format!("{}-{:?}-{}.ndjson", std::process::id(), std::thread::current().id(), seq)
+        .replace(['(', ')'], "");
+    let _ = std::fs::create_dir_all(&dir);
+    let _ = std::fs::write(dir.join(name), rec.out);
 }
